@@ -177,7 +177,7 @@ typedef struct {
 	void *pool[MAXCB]; int pool_esi[MAXCB]; int npool;
 	int **H; int *Hn; int nH;          /* rows as lists of ESIs */
 	void **lasttab;                    /* last table returned by get_source_symbols_tab */
-	int lasttab_valid;
+	int lasttab_valid; int ngettab;
 } dses_t;
 static dses_t S[MAXS];
 static long g_exec;
@@ -634,10 +634,17 @@ static void cmd_gettab(int sid, int autocall)
 	dses_t *s = &S[sid];
 	void **tab = calloc(s->k ? s->k : 1, sizeof(void *)); /* exact size: k entries */
 	if (s->k == 0) { free(tab); tab = malloc(1); }
+	/* the table is the application's: on every other query it holds leftovers (of a previous block, or never
+	 * initialised) instead of zeroes.  An entry the library left as it was is garbage to the application when the
+	 * call succeeds ("table that will be filled by the library") and nothing when the call is refused */
+	int pre = autocall ? 0 : (int)((s->k + (uint32_t)s->ngettab++) & 1);     /* the query made for the release bookkeeping is a plain one */
+#define GT_POISON(i) ((void *)(uintptr_t)(0x5A5A0000u + 16u * ((i) % 4096u) + 8u))
+	if (pre) for (uint32_t i = 0; i < s->k; i++) tab[i] = GT_POISON(i);
 	LIB_ENTER(sid);
 	of_status_t st = of_get_source_symbols_tab(s->ses, tab);
 	LIB_LEAVE();
-	jb_printf("{\"e\":\"GetTab\",\"x\":%ld,\"s\":%d,\"auto\":%d,\"tab\":[", g_exec, sid, autocall);
+	if (pre && st != OF_STATUS_OK) for (uint32_t i = 0; i < s->k; i++) if (tab[i] == GT_POISON(i)) tab[i] = NULL;
+	jb_printf("{\"e\":\"GetTab\",\"x\":%ld,\"s\":%d,\"auto\":%d,\"pre\":%d,\"tab\":[", g_exec, sid, autocall, pre);
 	for (uint32_t i = 0; i < s->k; i++) {
 		int pi; const char *o = origin_of(s, tab[i], i, &pi);
 		jb_printf("%s", i ? "," : "");
